@@ -197,40 +197,59 @@ func nonEmptyOnPath(p eng.Path, v ssa.Value) (bool, string) {
 // c06PrefixRule decides that child paths are prefixed whenever any of the three
 // content maps is non-empty (shared with C04).
 func c06PrefixRule(c *eng.Ctx, rule string, rec *ssa.Function) {
-	// Joinable is used whenever any of the three maps is non-empty: the phi
-	// selecting the prefix takes "" only when all three length tests failed.
+	// The child prefix is φ("" | Joinable(path)). The "" edge may be taken only
+	// where all three content maps are known to be empty — however the test is
+	// written (three `> 0` tests, a De Morgan'd named boolean, `== 0` …): the
+	// facts holding on that edge, including those implied by a boolean it
+	// branches on, must say so for alpha's and beta's map and mention the
+	// ancestor's (whose contents may have been replaced by nil just before).
+	n := 0
 	for _, call := range eng.CallsNamed(rec, "synchronization/core/fastpath.Joinable") {
-		g := eng.Guards(call)
-		_ = g
-		// The block computing Joinable is entered from three tests; its
-		// complement (prefix "") must carry all three `len(...) > 0` false.
-		joinBlk := call.Block()
-		tests := map[string]bool{}
-		for _, p := range joinBlk.Preds {
-			if iff, ok := p.Instrs[len(p.Instrs)-1].(*ssa.If); ok {
-				tests[eng.Render(iff.Cond)] = true
+		cl, ok := call.(*ssa.Call)
+		if !ok {
+			continue
+		}
+		for _, ref := range *cl.Referrers() {
+			phi, ok := ref.(*ssa.Phi)
+			if !ok {
+				continue
+			}
+			for i, e := range phi.Edges {
+				if k, isC := e.(*ssa.Const); !isC || k.Value == nil || k.Value.ExactString() != `""` {
+					continue
+				}
+				n++
+				pred := phi.Block().Preds[i]
+				g := append([]eng.Atom(nil), eng.GuardsOfBlock(pred)...)
+				if iff, ok := pred.Instrs[len(pred.Instrs)-1].(*ssa.If); ok && len(pred.Succs) == 2 && pred.Succs[0] != pred.Succs[1] {
+					pol := pred.Succs[0] == phi.Block()
+					g = append(g, eng.MkAtom(iff.Cond, pol))
+					g = append(g, eng.ImpliedAtoms(iff.Cond, pol)...)
+				}
+				var missing []string
+				for _, w := range []string{"p2", "p3", "p4"} {
+					empty := false
+					for _, a := range g {
+						if !strings.Contains(a.Expr, "GetContents("+w+")") {
+							continue
+						}
+						if w == "p2" {
+							empty = true // ancestor contents may be overridden to nil after an ancestor change
+						}
+						if strings.HasSuffix(a.Expr, " > 0)") && !a.Pos || strings.HasSuffix(a.Expr, " == 0)") && a.Pos {
+							empty = true
+						}
+					}
+					if !empty {
+						missing = append(missing, w)
+					}
+				}
+				c.Check(rule, "prefix-when-any-contents", call.Pos(), len(missing) == 0, "the child prefix is computed when ancestor, alpha or beta has contents (the empty prefix is used only where all three content maps are empty)", fmt.Sprintf("not known empty on the \"\" edge: %v; facts: %s", missing, atomsShort(g)))
 			}
 		}
-		want := []string{"p2", "p3", "p4"}
-		all := true
-		var missing []string
-		for _, w := range want {
-			found := false
-			for t := range tests {
-				if strings.Contains(t, "GetContents("+w+")") && strings.HasSuffix(t, " > 0)") {
-					found = true
-				}
-				// ancestor contents may be overridden to nil after an ancestor change
-				if w == "p2" && strings.Contains(t, "GetContents(p2)") {
-					found = true
-				}
-			}
-			if !found {
-				all = false
-				missing = append(missing, w)
-			}
-		}
-		c.Check(rule, "prefix-when-any-contents", call.Pos(), all, "the child prefix is computed when ancestor, alpha or beta has contents", fmt.Sprintf("tests=%v missing=%v", keysOf(tests), missing))
+	}
+	if n == 0 {
+		c.Problem(rule, "child-prefix selection (\"\" vs Joinable(path)) not found in reconcile")
 	}
 }
 
